@@ -5,7 +5,8 @@ MATH = "math: sin/cos/tan/sqrt/hypot/atan2/ceil/radians axiomatised as reals (DE
 PATHOPS = "skia-pathops: Region algebra contract of Path/op/simplify/stroke/bounds/area/transform (DESIGN 3.5) - Skia itself is not verified"
 LXML = "lxml: _Attrib is an insertion-ordered str->str dict; parser options honoured; XPath/tree surgery as documented (DESIGN 3.6)"
 BRIDGE = "printer/parser bridge P1-P3 between path-data strings and command lists (DESIGN 3.4); checked only by the bounded part of C10"
-RE = "re: match/split/finditer semantics (DESIGN 3.3)"
+RE = ("re: the scanning loops of split/finditer and the leftmost-first semantics of the sre matcher (= Pike semantics for the constructs used; cross-checked against the real "
+      "pattern on sampled strings every run), membership of one character in one atom taken from the engine itself, float()/int() of a lexeme (DESIGN 3.3, S.8)")
 
 PROPERTIES = {}
 
@@ -36,8 +37,9 @@ def _p(pid, level, explanation, trusted):
 
 _p("C11", "proof",
    "Every Affine2D method, the dispatch of parse_svg_transform and Rect.empty are executed symbolically from /repo's source and "
-   "checked against SVG 7.4-7.8 written as spec functions; all paths, all real inputs. The tokenisation of transform strings by "
-   "regular expressions is checked only by the bounded component (labelled bounded, not counted as proved).",
+   "checked against SVG 7.4-7.8 written as spec functions; all paths, all real inputs. The two regular expressions of parse_svg_transform are read from its AST "
+   "and decided against the transform grammar for all strings (transform.patterns: every item is matched whole, the separator matches only and all of a comma-wsp); that group 2 is the "
+   "argument text and the conversion of each argument by float() are checked by the bounded component only (labelled bounded, not counted as proved).",
    [MATH, CPY, RE])
 
 _p("C19", "other",
@@ -156,8 +158,10 @@ _p("C06", "other",
    [LXML, PATHOPS, CPY, MATH])
 
 _p("C10", "other",
-   "Proved: _explode_cmd, check_cmd / num_args against the SVG arity table, the walk/printing structure (C09) and the loop variant of _parse_args with the "
-   "minimum match width of its regular expressions computed from the compiled patterns (C17). The tokenizer itself (regular expressions on arbitrary strings) "
-   "is not decided deductively: exhaustive short strings against a parser derived independently from the SVG BNF, and the print/parse round trip over extreme "
-   "floats, are the bounded part (labelled bounded).",
+   "Proved for ALL strings over the path alphabet (automata back end, pyvc/rx.py): _FLOAT_RE.match ends exactly at the longest SVG-number prefix, _BOOL_RE is one binary digit, "
+   "_SEPARATOR_RE / _CMD_RE match nothing but separators / one command letter. Proved for ANY number of tokens (while-loop invariant + lexicographic variant, lexer.parse_args): "
+   "each iteration of the real _parse_args reads exactly one argument of the kind its position demands from the head of the current token, re-queues the rest, and raises ValueError "
+   "exactly when the head is not such an argument. Proved: parse_svg_path against those contracts (<= 2 commands), _explode_cmd, check_cmd / num_args against the SVG arity table, "
+   "the walk/printing structure (C09). The composition of these contracts into 'the yielded sequence is the grammar's' is a paper argument (DESIGN S.8), cross-checked by the bounded part: "
+   "exhaustive short strings against a parser derived independently from the SVG BNF, and the print/parse round trip over extreme floats (labelled bounded).",
    [RE, CPY])
